@@ -499,19 +499,38 @@ func prepopulated(t *gcore.Type) any {
 }
 
 func (w *W) checkC06(t *gcore.Type, id string, c *dynamicpb.Message) {
-	for _, v := range variants(t.RefDesc(), c, 1) {
+	for vi, v := range variants(t.RefDesc(), c, 1) {
 		ref, rerr := refDecode(t, v.b)
 		if rerr != nil {
 			w.sh.Internal("variant generator produced bytes the reference rejects: %s %s %s: %v (%x)", t, id, v.name, rerr, v.b)
 			continue
 		}
 		vid := id + "/" + v.name
-		for dst := 0; dst < 2; dst++ {
+		ndst := 2
+		if vi == 0 && len(v.b) > 1 {
+			ndst = 3 // the canonical encoding also goes into a destination whose previous Unmarshal FAILED half-way
+		}
+		for dst := 0; dst < ndst; dst++ {
 			var x any
-			if dst == 0 {
+			switch dst {
+			case 0:
 				x = t.New()
-			} else {
+			case 1:
 				x = prepopulated(t)
+			default:
+				x = t.New()
+				failed := false
+				for cut := len(v.b) - 1; cut > 0 && !failed; cut-- {
+					var ferr error
+					p := guard(func() { ferr = x.(unmarshaler).Unmarshal(append([]byte{}, v.b[:cut]...)) })
+					failed = p == "" && ferr != nil
+					if p != "" {
+						break // C08's business
+					}
+				}
+				if !failed {
+					continue
+				}
 			}
 			w.evals++
 			tree, err, pan := w.decodeGen(t, x, v.b)
@@ -524,7 +543,7 @@ func (w *W) checkC06(t *gcore.Type, id string, c *dynamicpb.Message) {
 			default:
 				if df := gcore.Diff(ref, tree); df != "" {
 					o := "C06/differs-from-reference"
-					if dst == 1 {
+					if dst >= 1 {
 						o = "C06/result-depends-on-previous-destination-content"
 						if f, _, _ := w.decodeGen(t, t.New(), v.b); f != nil && gcore.Diff(ref, f) != "" {
 							o = "C06/differs-from-reference"
